@@ -1,7 +1,8 @@
-from . import dchecks, rchecks, ochecks
+from . import dchecks, rchecks, ochecks, gchecks
 
 CHECKS = {}
 REPLAYERS = {}
 CHECKS.update(dchecks.CHECKS)
 CHECKS.update(rchecks.CHECKS)
 CHECKS.update(ochecks.CHECKS)
+CHECKS.update(gchecks.CHECKS)
